@@ -27,7 +27,8 @@ def cfgOff (flags : String) : Cfg :=
   { cfg with globalDoubleRead := cfg.globalDoubleRead && !flags.contains 'g',
              codeLimit := if flags.contains 'c' then MirVerif.Gen.C11.insnBound else cfg.codeLimit,
              dataPtr := cfg.dataPtr || flags.contains 'p',
-             endfuncLabels := cfg.endfuncLabels || flags.contains 'e' }
+             endfuncLabels := cfg.endfuncLabels || flags.contains 'e',
+             lrefZeroIsNone := cfg.lrefZeroIsNone && !flags.contains 'z' }
 
 def hexDigit (n : Nat) : Char := if n < 10 then Char.ofNat (48 + n) else Char.ofNat (87 + n)
 
